@@ -85,7 +85,7 @@ def build_check(cid, spec=None, tag=None):
 
 
 def validate_evidence(cid, tier):
-    p = os.path.join(VERIF, "evidence", cid + ".json")
+    p = os.path.join(os.environ.get("VERIF_OUT_DIR") or VERIF, "evidence", cid + ".json")
     if not os.path.exists(p):
         die("check did not write " + p)
     try:
